@@ -3,7 +3,7 @@
 Records the outcome in seeded/<id>/meta.json under "checks". Usage: seed_run.py [dir ...]"""
 import glob, json, os, re, subprocess, sys, time
 VERIF = os.path.dirname(os.path.dirname(os.path.abspath(__file__)))
-dirs = sys.argv[1:] or sorted(glob.glob(os.path.join(VERIF, 'seeded', '*')))
+dirs = [os.path.abspath(x) for x in sys.argv[1:]] or sorted(glob.glob(os.path.join(VERIF, 'seeded', '*')))
 assert subprocess.run(['git', '-C', '/repo', 'status', '--porcelain'], capture_output=True, text=True).stdout.strip() == '', '/repo not clean'
 for d in dirs:
     d = d.rstrip('/')
